@@ -41,6 +41,10 @@ def sched_run_definitions(ctx: Ctx, pid: str, want_equiv: bool):
     """C01.h / C03.a / C07.a: how each scheduler defines `transaction.run`."""
     for name in scheduler_functions(ctx, f"{pid}.schedulers"):
         fn = _fn(ctx, SCHED, name, f"{pid}.sched")
+        # scheduling is combinational: run (and the arbiter's requests) are decided in the cycle they apply to
+        for ex_, h_ in fn.facts(HwAssign, lambda h: h.lhs is not None and (h.lhs[0] == "a" and h.lhs[2] == "run" or "requests" in tstr(h.lhs))):
+            ctx.check(h_.domain == ("c", "comb"), f"{pid}.scheduler-combinational", h_.site, f"{name}.{tstr(h_.lhs).split('.')[-1].split('[')[0]}.domain", found=f"{tstr(h_.domain)} += {tstr(h_.lhs)}.eq(...)",
+                      required="driven in m.d.comb: a registered run would execute a transaction one cycle after its readiness was evaluated")
         if _classify_scheduler(fn) == "eager":
             _sched_eager(ctx, pid, fn, want_equiv)
         else:
